@@ -110,3 +110,11 @@ func GinRoutePath(i int) string
 func GinChainLen(i int) int
 func GinServe(i int, c interface{}) int
 func VerifyCalls() int
+
+// Lockset discipline (C09): Watch registers the fields of *ptr as shared
+// locations; objects stored into a sync.Map afterwards are watched
+// automatically. AssertLockDiscipline reports every watched location that
+// was written and whose accesses have no common mutex.
+func Watch(ptr interface{}, name string)
+func RacyLocations() int
+func AssertLockDiscipline()
